@@ -4,31 +4,43 @@ counted as proved.  Oracles use plain Python and raw lxml (``obj._Element__eleme
 
 Run:   cd /verif && .venv/bin/python -m pyvc.btest specs.b_values [--thorough] [--target <substr>]
 
-Baseline on the unchanged tree (quick tier): see FINDINGS at the end of the module; every failing label on
-the unchanged tree is one of the genuine defects listed there.  BASELINE (below) gives, per contract, the
-labels that fail today, so that a mutant is recognised by a label outside the baseline (or, for a label
-already in the baseline, by a larger number of failing inputs).
+Also: .venv/bin/python -m specs.b_values [--thorough] [--target <substr>]   compares the failures with BASELINE
+       (what fails on the unchanged tree) and prints only the NEW failure keys; exit status 1 if there are any.
+       .venv/bin/python -m specs.b_values --witnesses   runs the stand-alone witness of every entry of FINDINGS.
+Both honour PYVC_REPO, so they can be run under tools/mutrun.py.
 
-kills (tools/mutrun.py, quick tier; label that newly fails / count that grows):
-  C06  element_typed.py  swap the bool / int isinstance tests in set_value_and_type
-                         -> cells + fields: direct_bool, reparse_bool, reopen_bool, lexical_bool
-       cell.py           remove the `"T" in value_str` test in Cell.value (always Date.decode)
-                         -> cells: direct_datetime, reparse_datetime, reopen_datetime
-       element_typed.py  swap the datetime / date tests  -> cells + fields: *_datetime, lexical_datetime
-       element_typed.py  write office:value for "string" -> cells + fields: lexical_str (and direct_str grows)
-       meta.py           Decimal(text) -> float(text) in _get_meta_value_full -> meta: direct_decimal, direct_float
-  C20  toc.py            `level_indexes.get(level, 0) + 1` -> `get(level, 1) + 1`   -> numbering, tool
-       toc.py            `level > outline_level` -> `level >= outline_level`        -> which
-       toc.py            deeper counters not cleared (`while idx in` -> `while False and idx in`) -> numbering, tool
-       toc.py            `range(1, level)` -> `range(1, level + 1)`                 -> numbering
-       scripts/headers.py `get(level, 0) + 1` -> `get(level, 1) + 1`                -> tool
-       toc.py            title not restored (`if title and str(title)` -> `if False`) -> title
-  C15  table.py          remove `.clone` in _get_formatted_text_rst  -> unchanged (Table/Document get_formatted_text rst)
-       element.py        replace() writes when `new is None` (new = "" forced)      -> unchanged (replace on every receiver)
-       element.py        serialize() without deepcopy (strips namespaces in place is invisible; instead:
-                         `element = deepcopy(self.__element)` -> `element = self.__element` + tail reset) -> unchanged
-       element.py        get_attribute deletes the attribute it read               -> unchanged, twice
-       meta.py           get_statistic pops from the element                       -> unchanged
+Unchanged tree: every failing label is a genuine defect listed in FINDINGS (end of the module):
+  cells / fields  direct_str, reparse_str, reopen_str   only for the values 'true' and 'false'
+  TOC.fill        entry_text (every document with an entry), fill_runs (the 3 documents with TOC(title=''))
+  read-only       unchanged for Document.to_markdown, <any Element>.get_variable_decls / get_user_field_decls
+A mutant shows as a failure key outside BASELINE (other label, other carrier / value / entry point).
+
+kills (tools/mutrun.py <file> <old> <new> -- .venv/bin/python -m specs.b_values, quick tier; NEW keys reported):
+  C06  element_typed.py  numeric isinstance test moved before the bool test in set_value_and_type
+                         -> cells + fields: direct_bool (12 keys: storing a bool raises / reads a number)
+       cell.py           Cell.value setter: bool test moved after the int test -> cells: direct_/reparse_/lexical_bool
+       element_typed.py  datetime branch of set_value_and_type disabled (date branch takes datetimes)
+                         -> cells + fields: direct_/reparse_/lexical_datetime (188 + 141 inputs)
+       cell.py           Cell.value decodes only the date part (`Date.decode(value_str[:10])`) -> cells: *_datetime (188 keys)
+       element_typed.py  office:value written instead of office:string-value for "string"
+                         -> cells: lexical_str (30); fields: direct_/reparse_/reopen_/lexical_str (all 10 strings)
+       meta.py           date tested before datetime in set_user_defined_metadata (the defect fixed in the tree)
+                         -> meta: direct_/reparse_/reopen_/lexical_datetime (47-48 of 48 datetimes)
+       meta.py           Decimal(text) -> float(text) in _get_meta_value_full -> meta: *_int, *_float, *_decimal
+       NOT killed: cell.py `"T" in value_str` test removed from Cell.value: equivalent on Python >= 3.11, where
+                   Date.decode and DateTime.decode are the same datetime.fromisoformat (see OBSERVATIONS)
+  C20  toc.py            `level_indexes.get(level, 0) + 1` -> `get(level, 1) + 1` -> numbering, entry_text_upto_final_break (3682)
+       toc.py            `level > outline_level` -> `level >= outline_level`  -> which, numbering (2384)
+       toc.py            deeper counters not cleared (the `while idx in level_indexes` loop removed) -> numbering (624)
+       toc.py            `range(1, level)` -> `range(1, level + 1)`           -> numbering (3682)
+       scripts/headers.py `get(level, 0) + 1` -> `get(level, 1) + 1`          -> tool (3682)
+       toc.py            title not restored (`if title and str(title)` -> `if False`) -> title (every document with a title)
+  C15  table.py          `.clone` removed in _get_formatted_text_rst (`table = self`)
+                         -> unchanged|get_formatted_text (Document rst_mode=True, Table / Body context=rst)
+       element.py        replace() writes when `new is None` (treated as "") -> unchanged|replace, twice|replace (14 receivers)
+       element.py        get_attribute pops the attribute it reads           -> unchanged / twice on many entry points
+       element.py        serialize() works on the live element and drops its tail -> unchanged|serialize (Span)
+       NOT a mutant: dropping only the deepcopy in serialize() changes nothing observable (lxml tostring is pure)
 """
 from __future__ import annotations
 
@@ -554,13 +566,14 @@ def _gen_c20(con, sigcase, count, seed):
                 yield {"levels": seq, "texts": texts, "outline": ol, "position": C20_POSITIONS[k % 3],
                        "title": "Table of Contents"}
                 k += 1
-    # B: full product texts x positions for all sequences of length <= 2 over levels {1,2,10}
+    # B: every text assignment (x positions) for all sequences of length <= 2 over levels {1,2,10}
     for n in range(1, 3):
         for seq in itertools.product((1, 2, 10), repeat=n):
             for texts in itertools.product(C20_TEXTS, repeat=n):
-                for pos in C20_POSITIONS:
+                for pos in (C20_POSITIONS if (n == 1 or thorough) else (C20_POSITIONS[k % 3],)):
                     for ol in (0, 1):
                         yield {"levels": seq, "texts": texts, "outline": ol, "position": pos, "title": "My  Title"}
+                k += 1
     # C: a TOC created without a title
     for seq in ((), (1,), (1, 2)):
         yield {"levels": seq, "texts": ("One",) * len(seq), "outline": 0, "position": "start", "title": ""}
@@ -704,7 +717,8 @@ contract(
         scope="A: every heading-level sequence over {1,2,3,4,10} of length 0..4 (quick) / 0..5 (thorough) x TOC outline "
               "level {0,1,2,3,10}, heading texts {'One', 'a  b' (text:s), 'Sp<span>an</span> end', ''} and TOC position "
               "{start, middle, end of body} assigned cyclically; B: all sequences of length 1..2 over {1,2,10} x every "
-              "text assignment x every position x outline {0,1}, title 'My  Title'; C: 3 documents with TOC(title=''). "
+              "text assignment x outline {0,1} x every position (length 2 in the quick tier: one position, cyclically), "
+              "title 'My  Title'; C: 3 documents with TOC(title=''). "
               "Each: fill once (entries, numbering, text, title, odfdo-headers tool) and twice (C14N-equal index body "
               "and content)",
         reason="whole-document behaviour through lxml and Paragraph formatting; the numbering kernel is planned as a "
@@ -1070,7 +1084,7 @@ FINDINGS = [
         property="C20", target="odfdo.toc:TOC.fill", clause="ensures:entry_text",
         what_fails="every TOC entry ends with a text:line-break: the entry is built with f\"{number_str} {header}\" and "
                    "str(header) is Paragraph.__str__ = inner_text + '\\n'; the entry is not 'number, space, heading "
-                   "text and nothing else' (4130 of 4130 documents with at least one listed heading).  Smallest input: "
+                   "text and nothing else' (3682 of 3682 quick-tier documents with at least one listed heading).  Smallest input: "
                    "one level-1 heading 'One'.  Fix (1 line, toc.py fill): Paragraph(f\"{number_str} {header.inner_text}\")",
         witness=_W_HEAD + 'from odfdo import TOC, Document, Header\ndoc = Document("text")\ndoc.body.clear()\n'
                           'doc.body.append(Header(1, "One"))\ntoc = TOC()\ndoc.body.append(toc)\ntoc.fill()\n'
